@@ -6,9 +6,32 @@ From Coq Require Import List NArith ZArith Bool Arith.
 From RareV Require Import Base.Hex Base.Res Base.Num Model.Batch Model.Pipeline Model.Ctx.
 Import ListNotations.
 
-(* strings.TrimSpace(s) != "" on ASCII data: some byte is not one of \t \n \v \f \r space *)
+(* strings.TrimSpace(s) != "": the string is NOT a sequence of UTF-8 encoded White_Space runes
+   (unicode.IsSpace: U+0009-000D, U+0020, U+0085, U+00A0, U+1680, U+2000-200A, U+2028, U+2029, U+202F,
+   U+205F, U+3000); an invalid byte decodes to U+FFFD, which is no space. (Same definition as
+   Model/ArrayFns.v all_space, which C17 uses; repeated here to keep this file's imports small.) *)
 Definition is_space (b : N) : bool := ((9 <=? b) && (b <=? 13))%N || (b =? 32)%N.
-Definition truthy (s : bytes) : bool := negb (forallb is_space s).
+Fixpoint all_space (s : bytes) : bool :=
+  match s with
+  | [] => true
+  | b :: r =>
+      if is_space b then all_space r
+      else match r with
+           | c :: r1 =>
+               if (b =? 194)%N then ((c =? 133) || (c =? 160))%N && all_space r1
+               else match r1 with
+                    | e :: r2 =>
+                        (   ((b =? 225) && (c =? 154) && (e =? 128))
+                         || ((b =? 226) && (c =? 128) && (((128 <=? e) && (e <=? 138)) || (e =? 168) || (e =? 169) || (e =? 175)))
+                         || ((b =? 226) && (c =? 129) && (e =? 159))
+                         || ((b =? 227) && (c =? 128) && (e =? 128)))%N
+                        && all_space r2
+                    | [] => false
+                    end
+           | [] => false
+           end
+  end.
+Definition truthy (s : bytes) : bool := negb (all_space s).
 
 Inductive kpiece :=
 | KLit (s : bytes)      (* text outside braces *)
